@@ -15,6 +15,7 @@ func init() {
 	rt.Register("C05_create_one", VerifHarness_C05_create_one)
 	rt.Register("C05_create_two", VerifHarness_C05_create_two)
 	rt.Register("C05_create_three", VerifHarness_C05_create_three)
+	rt.Register("C05_create_names", VerifHarness_C05_create_names)
 	rt.Register("C05_sixteenk", VerifHarness_C05_sixteenk)
 	rt.Register("C05_volume_layout", VerifHarness_C05_volume_layout)
 }
@@ -301,6 +302,27 @@ func VerifHarness_C05_create_three() {
 	parity := []int{1, 4, 5}[rt.Choice("parity", 3)]
 	s := buildArchive([]int{5, 4, 3}, parity, 1+rt.Choice("g", 2))
 	checkCreated(s, []string{"f0", "f1", "f2"})
+}
+
+// Names of different lengths (not multiples of 4, a sub-directory): every
+// packet body is padded with zeros of its own, whatever was written before it.
+func VerifHarness_C05_create_names() {
+	names := [][]string{
+		{"longer_name.bin", "a.txt"},
+		{"ab", "abcdefg", "x"},
+		{"sub/dir/file1", "q", "zz.tar.gz"},
+	}[rt.Choice("names", 3)]
+	useFileIDLessSpec()
+	s := &scenario{fs: newSymFS(), parity: 1}
+	for i, n := range names {
+		data := rt.Bytes("f"+string(rune('0'+i)), 1+i)
+		s.orig = append(s.orig, data)
+		s.paths = append(s.paths, scnDir+"/"+n)
+		s.fs.put(scnDir+"/"+n, append([]byte(nil), data...))
+	}
+	err := create(s.fs, scnIndex, s.paths, CreateOptions{SliceByteCount: scnSlice, NumParityShards: 1, NumGoroutines: 1})
+	rt.Assert(err == nil, "Create succeeds on the scenario")
+	checkCreated(s, names)
 }
 
 // The first-16-KiB hash at the boundary: exactly the prefix of length
